@@ -84,7 +84,7 @@ impl Tally {
         self.refused_zones += o.refused_zones;
         self
     }
-    fn json(&self) -> Value {
+    pub fn json(&self) -> Value {
         json!({"zones": self.zones, "searches": self.searches, "searches_with_gap": self.with_gap, "searches_with_2plus_results": self.multi, "searches_with_3plus_results": self.three_plus, "searches_with_no_result": self.empty, "normalised_deleted_labels_I5": self.normalised_deleted, "kf1_cases": self.kf1, "kf2_cases": self.kf2, "kf3_cases": self.kf3, "buffer_runs": self.buffers, "date_times_checked_for_C14": self.dts, "zones_refused": self.refused_zones})
     }
 }
@@ -1349,6 +1349,8 @@ pub fn run_sweeps(ctx: &Ctx, tabs: &Tables, thorough: bool, light: bool) -> Tall
     total = total.merge(sweep_leap_extreme(ctx));
     // 2b'. more than 256 local time types
     total = total.merge(sweep_many_types(ctx, thorough));
+    // 2b''. leap tables x offsets more than two record spacings apart
+    total = total.merge(crate::leap::sweep_wide_offsets(ctx, thorough));
     // 2c. both ends of the supported instant range
     total = total.merge(sweep_range_ends(ctx));
     // 3. rule only
